@@ -29,7 +29,10 @@ def recsV (S : Schema) (md : MD) : V → List NRec
   | _ => []
 def recsList (S : Schema) (idx : Nat) (fd : FD) (i : Nat) : List V → List NRec
   | [] => []
-  | v :: vs => .msg idx fd i (recsV S (S.md i) v) :: recsList S idx fd i vs
+  | v :: vs =>
+    -- a nil-valued entry of a message-valued map: no record
+    if fd.card.isMap && nilEntry (S.md i) v then recsList S idx fd i vs
+    else .msg idx fd i (recsV S (S.md i) v) :: recsList S idx fd i vs
 end
 
 mutual
@@ -46,13 +49,15 @@ def canonF (S : Schema) (fd : FD) : F → F
   | .many vs =>
     match fd.ty with
     | .sc _ => canonField fd (.many vs)
-    | .msg i => .many (canonVs S (S.md i) vs)
+    | .msg i => .many (canonVs S (S.md i) fd.card.isMap vs)
 def canonV (S : Schema) (md : MD) : V → V
   | .msg fs _ => .msg (canonFs S md fs) []
   | v => v
-def canonVs (S : Schema) (md : MD) : List V → List V
+/-- … of the elements of a repeated message field (`sk = false`) / the entries of a map field (`sk = true`: an entry
+    whose message value is a nil pointer was not written, so it is not there after the round trip) -/
+def canonVs (S : Schema) (md : MD) (sk : Bool) : List V → List V
   | [] => []
-  | v :: vs => canonV S md v :: canonVs S md vs
+  | v :: vs => if sk && nilEntry md v then canonVs S md sk vs else canonV S md v :: canonVs S md sk vs
 end
 
 mutual
@@ -157,22 +162,29 @@ theorem bytes_recsV (S : Schema) (md : MD) : ∀ (v : V) (body : Bytes),
   | .num _, body, _, _, hb => by simp only [bytesMsgV] at hb; cases hb; simp [recsV, wiresN]
   | .bs _, body, _, _, hb => by simp only [bytesMsgV] at hb; cases hb; simp [recsV, wiresN]
 theorem ops_recsList (S : Schema) (idx : Nat) (fd : FD) (i : Nat) : ∀ (vs : List V) (ops : List EncOp),
-    OKMsgList S (S.md i) vs → CleanVs vs → opsMsgList S (S.md i) fd.num vs = .ok ops → wiresOf ops = wiresN (recsList S idx fd i vs)
+    OKMsgList S (S.md i) vs → CleanVs vs → opsMsgList S (S.md i) fd.num fd.card.isMap vs = .ok ops →
+    wiresOf ops = wiresN (recsList S idx fd i vs)
   | [], ops, _, _, ho => by simp only [opsMsgList] at ho; cases ho; simp [recsList, wiresOf, wiresN]
   | v :: vs, ops, hok, hcl, ho => by
     simp only [CleanVs] at hcl
     simp only [OKMsgList] at hok
     simp only [opsMsgList] at ho
+    by_cases hn : (fd.card.isMap && nilEntry (S.md i) v) = true
+    · rw [if_pos hn] at ho
+      simp only [recsList, if_pos hn]
+      exact ops_recsList S idx fd i vs ops hok.2 hcl.2 ho
+    rw [if_neg hn] at ho
     cases hb : bytesMsgV S (S.md i) v with
     | ok body =>
       rw [hb] at ho
-      cases hr : opsMsgList S (S.md i) fd.num vs with
+      cases hr : opsMsgList S (S.md i) fd.num fd.card.isMap vs with
       | ok rest =>
         rw [hr] at ho; cases ho
         have hl := msgV_exact S (S.md i) v body hok.1 hb
         have hbody := bytes_recsV S (S.md i) v body hok.1 hcl.1 hb
         have ih := ops_recsList S idx fd i vs rest hok.2 hcl.2 hr
-        simp [recsList, wiresOf_cons, wiresN_cons, NRec.wire, EncOp.wire, hl, ← hbody, ih]
+        simp only [recsList, if_neg hn]
+        simp [wiresOf_cons, wiresN_cons, NRec.wire, EncOp.wire, hl, ← hbody, ih]
       | err => rw [hr] at ho; cases ho
       | panic => rw [hr] at ho; cases ho
     | err => rw [hb] at ho; cases ho
@@ -294,7 +306,7 @@ theorem recList_ok (S : Schema) (hS : SchemaOK S) (mdAll : MD) (fd : FD) (idx i 
   | [], _ => by simp [recsList, OKs]
   | v :: vs, hwf => by
     simp only [WFvs] at hwf
-    simp only [recsList, OKs, NRec.OK]
+    simp only [recsList, isMap_of_ne hnm, Bool.false_and, Bool.false_eq_true, if_false, OKs, NRec.OK]
     exact ⟨⟨hfind, hty, htag, hnm, recV_len S (S.md i) v hwf.1, recV_ok S hS (S.md i) v hwf.1 ⟨i, rfl⟩⟩,
       recList_ok S hS mdAll fd idx i hfind hty htag hnm vs hwf.2⟩
 end
@@ -372,7 +384,7 @@ theorem recsField_nil_canon (S : Schema) (idx : Nat) (fd : FD) (f : F) (hwf : WF
       simp only [recsField, hty] at h
       cases vs with
       | nil => simp [canonF, hty, canonVs, initField, hwf.1]
-      | cons v vs => simp [recsList] at h
+      | cons v vs => simp [recsList, isMap_list hwf.1] at h
 
 theorem recsFields_nil_canon (S : Schema) : ∀ (base : Nat) (md : MD) (fs : List F), WFs S md fs →
     recsFields S base md fs = [] → canonFs S md fs = md.map initField
@@ -572,11 +584,11 @@ theorem fold_field (S : Schema) (hS : SchemaOK S) (mdAll : MD) (idx : Nat) (fd :
     | msg i =>
       simp only [hty] at hwf
       obtain ⟨hlist, _, hvs⟩ := hwf
-      simp only [opsField, hty] at ho
+      simp only [opsField, hty, isMap_list hlist] at ho
       have hinit : initField fd = .many [] := by simp [initField, hlist]
       rw [hinit] at hcur
       have := fold_list S hS mdAll idx fd i (fun g => by simp [hlist]) hlist vs ops [] fs unk hlt hcur hvs ho
-      simpa [recsField, hty, canonF] using this
+      simpa [recsField, hty, canonF, isMap_list hlist] using this
 termination_by structural f => f
 
 /-- a nested message: decoding its record tree gives its canonical form -/
@@ -615,20 +627,20 @@ termination_by structural v => v
 /-- the elements of a repeated message field, appended one by one -/
 theorem fold_list (S : Schema) (hS : SchemaOK S) (mdAll : MD) (idx : Nat) (fd : FD) (i : Nat) (hno : ∀ g, fd.card ≠ .oneof g)
     (hlist : fd.card = .list) : ∀ (vs : List V) (ops : List EncOp) (acc : List V) (fs : List F) (unk : Bytes),
-    idx < fs.length → fs.getD idx .unset = .many acc → WFvs S (S.md i) vs → opsMsgList S (S.md i) fd.num vs = .ok ops →
-    foldN S mdAll (recsList S idx fd i vs) (fs, unk) = .ok (fs.set idx (.many (acc ++ canonVs S (S.md i) vs)), unk)
+    idx < fs.length → fs.getD idx .unset = .many acc → WFvs S (S.md i) vs → opsMsgList S (S.md i) fd.num false vs = .ok ops →
+    foldN S mdAll (recsList S idx fd i vs) (fs, unk) = .ok (fs.set idx (.many (acc ++ canonVs S (S.md i) false vs)), unk)
   | [], _, acc, fs, unk, hlt, hcur, _, _ => by
     simp [recsList, foldN, canonVs, set_getD_self fs idx _ hlt hcur]
   | v :: vs, ops, acc, fs, unk, hlt, hcur, hwf, ho => by
     simp only [WFvs] at hwf
-    simp only [opsMsgList] at ho
+    simp only [opsMsgList, Bool.false_and, Bool.false_eq_true, if_false] at ho
     cases hb : bytesMsgV S (S.md i) v with
     | ok body =>
       rw [hb] at ho
-      cases hr : opsMsgList S (S.md i) fd.num vs with
+      cases hr : opsMsgList S (S.md i) fd.num false vs with
       | ok rest =>
         obtain ⟨cfs, hcv, hd⟩ := fold_msgV S hS (S.md i) ⟨i, rfl⟩ v body hwf.1 hb
-        simp only [recsList, foldN, NRec.applyN_msg, hd, assign_plain mdAll fs idx fd _ hno, hlist, hcur, appendTo]
+        simp only [recsList, isMap_list hlist, Card.isMap, Bool.false_and, Bool.false_eq_true, if_false, foldN, NRec.applyN_msg, hd, assign_plain mdAll fs idx fd _ hno, hlist, hcur, appendTo]
         have ih := fold_list S hS mdAll idx fd i hno hlist vs rest (acc ++ [V.msg cfs []])
           (fs.set idx (.many (acc ++ [V.msg cfs []]))) unk
           (by simpa using hlt) (by simp [List.getD_eq_getElem?_getD, List.getElem?_set_self hlt]) hwf.2 hr
